@@ -242,7 +242,7 @@ def main(argv=None):
         print("not reproduced")
         return 0
     quick = a.tier == "quick"
-    ev = common.Evidence(PROP, a.tier, a.seed, "fault_enumeration", "every corpus script x every network event index k x cut kind, re-executed deterministically with the fault placed at event k; a run is non-trivial when the fault actually fired; distinct = distinct run digests (hash of the full network event log, backend call log and transcripts)")
+    ev = common.Evidence(PROP, a.tier, a.seed, "fault_enumeration", "every corpus script x every network event index k x cut kind, re-executed deterministically with the fault placed at event k; a run is non-trivial when the fault actually fired; distinct = distinct run digests (hash of the full network event log, backend call log and transcripts) Includes a pipelined script and a download whose peer never reads the data connection.")
     rep = common.Reporter(PROP, ev)
     names = sorted({**corpus.scripts(), **corpus.extra_scripts()})
     seeds = [a.seed * 1000 + i for i in range(1 if quick else 6)]
